@@ -61,6 +61,11 @@ pub fn run_ops(sc: &mut ParameterNumberMessageScanner, ops: &[i64], obs: &mut Ve
                 sc.reset();
                 None
             }),
+            // starting over with a scanner created through Default (in the model: a new scanner)
+            8 => region(|| {
+                *sc = Default::default();
+                None
+            }),
             k => region(|| with_msg(k, op[1], op[2], op[3], &mut |m| m.feed_pn(sc))),
         };
         match r {
@@ -186,7 +191,7 @@ pub fn random_op(r: &mut Rng, nch: u64, v: &mut Vec<i64>) {
             let s = r.pick(&[128i64, 144, 160, 192, 208, 224]) + c;
             v.extend_from_slice(&[kind, s, r.pick(&PN_CNS), val]);
         }
-        0 => v.extend_from_slice(&[2, 0, 0, 0]),
+        0 => v.extend_from_slice(&[r.pick(&[2i64, 2, 8]), 0, 0, 0]),
         1 => {
             let s = 128 + r.below(128) as i64;
             v.extend_from_slice(&[kind, s, r.below(128) as i64, r.below(128) as i64]);
